@@ -420,6 +420,26 @@ def run(chk):
     lf = ldr.methods(TS)["load_template_from_file"]
     ok = any(isinstance(c, ast.Call) and u(c.func) == "self.replace_includes" and u(c.args[0]) == "self.base_path" for c in walk_body(lf))
     chk.ob("O10.6", "top-level includes resolve relative to the track's directory", ok, lf, "")
+    # built-in macros (embedded Jinja source): parsed with jinja2's own parser, never rendered
+    rt0 = ldr.func("render_template")
+    macro_texts = [e.value for n in walk_body(rt0) if isinstance(n, ast.Assign) and u(n.targets[0]) == "macros" and isinstance(n.value, ast.List) for e in n.value.elts if isinstance(e, ast.Constant) and isinstance(e.value, str)]
+    try:
+        import jinja2
+        import jinja2.nodes as jn
+
+        n_def = 0
+        for mt_ in macro_texts:
+            tree = jinja2.Environment().parse(mt_)
+            for f_ in tree.find_all(jn.Filter):
+                if f_.name == "default":
+                    n_def += 1
+                    boolean = (len(f_.args) >= 2 and not (isinstance(f_.args[1], jn.Const) and f_.args[1].value is False)) or any(k.key == "boolean" and not (isinstance(k.value, jn.Const) and k.value.value is False) for k in f_.kwargs)
+                    chk.ob("O10.6", "built-in macro: `default` filter replaces only UNDEFINED values (not boolean mode)", not boolean, rt0,
+                           "" if not boolean else "default(x, true) also replaces defined falsy values: a user-supplied 0 / false / '' is silently overridden by the track's default")
+        chk.ob("O10.6", "built-in macros parsed", len(macro_texts) >= 2 and n_def >= 1, rt0, f"{len(macro_texts)} macro source(s), {n_def} default filter(s)")
+    except ImportError:
+        chk.adv("O10.6", "jinja2 is not importable in this interpreter: the embedded macro sources were not parsed", rt0)
+
     # user variables never override internal ones: internal applied after user vars
     rt = ldr.func("render_template")
     g = cfg_of(rt)
@@ -449,6 +469,7 @@ VARIANTS = [
     V("unused parameters only logged", "break", _L, "            raise exceptions.TrackConfigError(f\"Unused track parameters {sorted(unused_user_defined_track_params)}.\")", "            pass", "O10.5"),
     V("no registration for included templates", "break", _L, "        self.logger.info(\"Loading template [%s].\", description)\n        register_all_params_in_track(contents, self.complete_track_params)", "        self.logger.info(\"Loading template [%s].\", description)", "O10.6"),
     V("seed m2: nested includes relative to the outer base", "break", _L, "                repl[glob_pattern] = self.replace_includes(base_path=io.dirname(full_glob_path), track_fragment=sub_source)", "                repl[glob_pattern] = self.replace_includes(base_path=base_path, track_fragment=sub_source)", "O10.6"),
+    V("seed m1: default filter in boolean mode", "break", _L, "{{ value | default(default_value) | tojson }}", "{{ value | default(default_value, true) | tojson }}", "O10.6"),
     # preserving
     V("keyword reorder in Task(...)", "keep", _L, "            name=task_name,\n            operation=op,", "            operation=op,\n            name=task_name,"),
     V("mixing rule operands swapped", "keep", _L, "        if task.warmup_iterations is not None and task.time_period is not None:", "        if task.time_period is not None and task.warmup_iterations is not None:"),
